@@ -69,6 +69,9 @@ def metadata_keys_written(paths):
     return out
 
 
+from ..framework import wants
+
+
 def run(env, rep):
     prog, ctx = env.prog, env.ctx
     rep.explanation = (
@@ -77,7 +80,7 @@ def run(env, rep):
         "the @setDataFrame / onMetaData framing and the eleven metadata keys (three tables) agree, each key bound to the same field; "
         "R2 argument positions of publish, play, createStream's result and deleteStream agree; R3 media payload and timestamp flow "
         "unchanged from the publish_* parameters into serialize and from the deserialized payload into the raised events; R4 a "
-        "received SetChunkSize is applied to the own deserializer with the announced size in both sessions; R5-R7: the packet-order "
+        "received SetChunkSize is applied to the own deserializer with the announced size in both sessions; R5-R7 (shared rules: C18 R1, C01 R1-R2, C07 R3 compression only on equality and R6 no empty chunk): the packet-order "
         "rule of C18 R1 and the codec agreement rules of C01 R1-R2 that interoperation rests on.  Not decided: completion of "
         "connect / publish / play and exactly-once in-order delivery under all interleavings.")
     I.ELEM_SOURCES[0] = True
@@ -296,5 +299,10 @@ def run(env, rep):
                   "the next larger chunk from the peer would be mis-framed" % (which, applied, called), hb.span)
     # ------------------------------------------------------------------ R5-R7 shared rules
     from . import C18, C01
-    C18.run(env, PrefixReport(rep, "C18.", "C02.R5.", only=("C18.R1",)))
-    C01.run(env, PrefixReport(rep, "C01.", "C02.R6.", only=("C01.R1", "C01.R2")))
+    if wants(rep, "C02.R5"):
+        C18.run(env, PrefixReport(rep, "C18.", "C02.R5.", only=("C18.R1",)))
+    if wants(rep, "C02.R6"):
+        C01.run(env, PrefixReport(rep, "C01.", "C02.R6.", only=("C01.R1", "C01.R2")))
+    from . import C07
+    if wants(rep, "C02.R7"):
+        C07.run(env, PrefixReport(rep, "C07.", "C02.R7.", only=("C07.R3", "C07.R6")))
